@@ -6,12 +6,12 @@ Each property contributes `LLBuild.Drv.<Id>.modes`.
 -/
 import LLBuild.Drv.Common
 import LLBuild.Drv.C14
-import LLBuild.Drv.Engine
+import LLBuild.Drv.C17Lex
 
 open LLBuild.Drv
 
 def allModes : List (String × Mode) :=
-  LLBuild.Drv.C14.modes ++ LLBuild.Drv.Engine.modes
+  LLBuild.Drv.C14.modes ++ LLBuild.Drv.C17Lex.modes
 
 def main (args : List String) : IO UInt32 := do
   let stdin ← IO.getStdin
